@@ -356,8 +356,23 @@ impl<'lifespan: 'transient, 'transient, 'outer: 'lifespan> IsotopicDistribution<
         composition: ChemicalComposition<'lifespan>,
         order: impl Into<NumPeaksSpec>,
     ) -> IsotopicDistribution<'lifespan, 'lifespan> {
-        let mut inst = IsotopicDistribution::fill_from_composition(composition, order);
+        let mut inst = IsotopicDistribution::resolve_request(composition, order.into());
         inst.populate_constants();
+        inst
+    }
+
+    /// Resolve a peak request the way [`isotopic_variants`] does: a fixed count or a signal
+    /// fraction names the order of the last requested peak, which is applied as it is.
+    /// Handing it to `fill_from_composition` alone would read it as one peak more.
+    fn resolve_request(
+        composition: ChemicalComposition<'outer>,
+        spec: NumPeaksSpec,
+    ) -> IsotopicDistribution<'lifespan, 'outer> {
+        let npeaks = spec.num_peaks(&composition);
+        let mut inst = IsotopicDistribution::fill_from_composition(composition, npeaks);
+        if spec != NumPeaksSpec::Guess {
+            inst.update_order(npeaks);
+        }
         inst
     }
 
@@ -389,7 +404,7 @@ impl<'lifespan: 'transient, 'transient, 'outer: 'lifespan> IsotopicDistribution<
         order: impl Into<NumPeaksSpec>,
         cache: &'transient mut IsotopicConstantsCache<'outer>,
     ) -> IsotopicDistribution<'lifespan, 'outer> {
-        let mut inst = IsotopicDistribution::fill_from_composition(composition, order);
+        let mut inst = IsotopicDistribution::resolve_request(composition, order.into());
         inst.populate_constants_from_cache(cache);
         inst
     }
